@@ -24,6 +24,7 @@ type State struct {
 	pendingPanic *Val
 	measures  map[string]string
 	noLoadAssume bool
+	callResult   bool // values being typed come from a call (may be freshly allocated by the callee)
 	loopHeap  map[string]string // heap versions when the innermost cut loop was entered
 	loopFresh []string          // objects allocated on this path before that loop was entered
 	visited map[int]int
